@@ -412,6 +412,13 @@ func (a *authzWorld) probe(target string, o *world.Owner, kind string, role sign
 			req.CommitId = "|" + a.nextCommit(target)
 		case "commit-separators":
 			req.CommitId = "||"
+		case "commit-bare-latest":
+			// no separator at all: exactly the model's latest commit id (looks like a creation, names an existing model)
+			if md, ok := w.Cur.Metas[target]; ok {
+				req.CommitId = md.Commit
+			}
+		case "commit-bare-new":
+			req.CommitId = a.nextCommit(target)
 		}
 		e, oid := w.Store(req)
 		if e.OK && oid != 0 {
@@ -500,7 +507,7 @@ func (a *authzWorld) probe(target string, o *world.Owner, kind string, role sign
 }
 
 var c09Mutations = []string{"none", "payload-altered", "replayed-signature", "garbage-jws", "empty-jws", "owner-field-victim", "kid-of-owner", "sid-version-confusion"}
-var c09StoreMutations = []string{"commit-embeds-dataid", "commit-dataid-prefix", "commit-empty-base", "commit-separators"}
+var c09StoreMutations = []string{"commit-embeds-dataid", "commit-dataid-prefix", "commit-empty-base", "commit-separators", "commit-bare-latest", "commit-bare-new"}
 
 func scnAuthz(ctx *check.JobCtx) {
 	w := newLifeWorld(ctx, monitorsFor(ctx.Job.Prop)...)
